@@ -119,7 +119,7 @@ func TestVerifC19(t *testing.T) {
 	if s.Replaying() && !s.RanReplay() {
 		t.Logf("replay case not found in this part (entry %s)", s.ReplayEntry())
 	}
-	if s.Calls == 0 && !s.Replaying() {
+	if s.Calls == 0 && !s.Replaying() && only == "" && (os.Getenv("VERIF_CRASH_RESUME") == "" || os.Getenv("VERIF_CRASH_RESUME") == "0") {
 		t.Fatal("no case executed")
 	}
 }
